@@ -40,7 +40,11 @@ class _P:
             return tuple(items)
         if c == "{":
             self.i += 1
-            return frozenset(self.items("}"))
+            items = self.items("}")
+            try:
+                return frozenset(items)
+            except TypeError:      # a set of records: keep it as a tuple (callers only iterate)
+                return tuple(items)
         if c == "[":
             self.i += 1
             d = {}
